@@ -5,8 +5,7 @@ import verif
 SIM_CFG = """SPECIFICATION Spec
 CONSTANTS
   Paths = {"a", "b", "d", "d/x"}
-  Rounds = %d
-  MaxEdits = 3
+  EditPlan <- %s
   Twin = FALSE
   Modes = {"inc", "incskip", "force"}
   Emit = TRUE
@@ -14,48 +13,76 @@ INVARIANT IncEqualsFull
 CHECK_DEADLOCK FALSE
 """
 
-
-def design(ctx):
-    """Exhaustive runs of the history model: premise => incremental tree = full tree and a skipped snapshot hides no
-    change; the negative twin (premise not enforced) must be refuted; omission must be reachable (vacuity)."""
-    out = []
-    for cfg in (["small", "full"] if ctx.thorough() else ["small"]):
-        r = ctx.tlc("Incremental", cfg="Incremental_%s.cfg" % cfg, workers=8, name="design_" + cfg, timeout=2400)
-        out.append({"cfg": cfg, "states": r["states"], "transitions": r["transitions"], "result": "holds"})
-    for cfg, exp in (("twin", "IncEqualsFull"), ("vac", "NeverOmits")):
-        r = ctx.tlc("Incremental", cfg="Incremental_%s.cfg" % cfg, workers=4, name="design_" + cfg, timeout=900, allow_violation=True)
-        if exp not in r["violated"]:
-            raise verif.MachineryError("design run %s: expected TLC to refute %s, got %s" % (cfg, exp, r["violated"]))
-        out.append({"cfg": cfg, "states": r["states"], "transitions": r["transitions"], "result": "refuted: " + exp})
-    return out
+SINGLES_CFG = """SPECIFICATION Spec
+CONSTANTS
+  Paths = %s
+  EditPlan <- Plan01
+  Twin = FALSE
+  Modes = {"inc"}
+  Emit = TRUE
+INVARIANT IncEqualsFull
+CHECK_DEADLOCK FALSE
+"""
 
 
-def histories(ctx):
-    n = ctx.pick(25, 250)
-    rounds = ctx.pick(4, 5)
-    r = ctx.tlc("Incremental", cfg="Incremental_simrun.cfg", files={"Incremental_simrun.cfg": SIM_CFG % rounds}, workers=1,
-                simulate="num=%d" % n, depth=80, extra=("-seed", str(1000 + ctx.seed)), name="simulate", timeout=1800)
-    hs = []
-    seen = set()
-    for m in re.finditer(r'^<<"HIST", (".*")>>\s*$', r["out"], re.M):
+def parse_hist(out):
+    hs, seen = [], set()
+    for m in re.finditer(r'^<<"HIST", (".*")>>\s*$', out, re.M):
         txt = json.loads(m.group(1))
         if txt in seen:
             continue
         seen.add(txt)
         json.loads(txt)
         hs.append(txt)
-    if len(hs) < n // 2:
-        raise verif.MachineryError("TLC simulation printed only %d histories, see %s" % (len(hs), r["dir"]))
+    return hs
+
+
+def design(ctx):
+    """Exhaustive runs of the history model: premise => incremental tree = full tree and a skipped snapshot hides no
+    change; the negative twin (premise not enforced) must be refuted; omission must be reachable (vacuity)."""
+    import concurrent.futures as cf
+    jobs = [(c, None) for c in (["small", "full"] if ctx.thorough() else ["small"])] + [("twin", "IncEqualsFull"), ("vac", "NeverOmits")]
+
+    def one(job):
+        cfg, exp = job
+        r = ctx.tlc("Incremental", cfg="Incremental_%s.cfg" % cfg, workers=4, name="design_" + cfg, timeout=2400, allow_violation=exp is not None)
+        if exp is None:
+            return {"cfg": cfg, "states": r["states"], "transitions": r["transitions"], "result": "holds"}
+        if exp not in r["violated"]:
+            raise verif.MachineryError("design run %s: expected TLC to refute %s, got %s" % (cfg, exp, r["violated"]))
+        return {"cfg": cfg, "states": r["states"], "transitions": r["transitions"], "result": "refuted: " + exp}
+    with cf.ThreadPoolExecutor(max_workers=4) as ex:
+        return list(ex.map(one, jobs))
+
+
+def histories(ctx):
+    # (1) exhaustive: backup, every single enabled edit operation, incremental backup - for every flag setting
+    paths = ctx.pick('{"a"}', '{"a", "b", "d", "d/x"}')
+    r1 = ctx.tlc("Incremental", cfg="Incremental_singlesrun.cfg", files={"Incremental_singlesrun.cfg": SINGLES_CFG % paths}, workers=1,
+                 name="singles", timeout=1800)
+    singles = parse_hist(r1["out"])
+    if len(singles) < 30:
+        raise verif.MachineryError("TLC enumerated only %d single-edit histories, see %s" % (len(singles), r1["dir"]))
+    # (2) random walks of the history model
+    n = ctx.pick(15, 200)
+    r = ctx.tlc("Incremental", cfg="Incremental_simrun.cfg", files={"Incremental_simrun.cfg": SIM_CFG % ctx.pick("Plan3333", "Plan33333")},
+                workers=1, simulate="num=%d" % n, depth=80, extra=("-seed", str(1000 + ctx.seed)), name="simulate", timeout=1800)
+    sims = parse_hist(r["out"])
+    if len(sims) < n // 2:
+        raise verif.MachineryError("TLC simulation printed only %d histories, see %s" % (len(sims), r["dir"]))
     p = os.path.join(ctx.work, "hist.ndjson")
     with open(p, "w") as fh:
-        fh.write("\n".join(hs) + "\n")
-    return p, len(hs)
+        fh.write("\n".join(singles + sims) + "\n")
+    return p, len(singles), len(sims)
 
 
 def run(ctx):
-    des = design(ctx)
-    vec, nh = histories(ctx)
-    out = ctx.go_test("cmd/restic", "^TestVerif_C40$", timeout=3000, env={"VERIF_VECTORS": vec})
+    import concurrent.futures as cf
+    with cf.ThreadPoolExecutor(max_workers=1) as bg:
+        fut = bg.submit(design, ctx)      # design runs do not depend on /repo; they run beside the replay
+        vec, nsingle, nsim = histories(ctx)
+        out = ctx.go_test("cmd/restic", "^TestVerif_C40$", timeout=3000, env={"VERIF_VECTORS": vec})
+        des = fut.result()
     recs = os.path.join(out, "recs.ndjson")
     nb, badb, lines = ctx.check_records("Fn_IncrementalBind", recs, name="bind")
     if badb:
@@ -82,11 +109,11 @@ def run(ctx):
     if cnt.get("points_with_parent", 0) < 10:
         raise verif.MachineryError("only %d backup points used a parent" % cnt.get("points_with_parent", 0))
     cov = {"evaluations": n, "distinct_nontrivial": res["distinct_nontrivial"], "rule": res["rule"], "samples": verif.samples_from(lines, 3),
-           "histories_generated_by_tlc": nh, "records_checked_by_tlc": n, "records_rejected": len(bad), "design_runs": des,
+           "single_edit_histories_enumerated_by_tlc": nsingle, "random_histories_simulated_by_tlc": nsim, "records_checked_by_tlc": n, "records_rejected": len(bad), "design_runs": des,
            "counters": cnt, "exhaustive": False}
     return verif.finish(ctx, "exploration", cov, [
         "edit operations are realised with real system calls (truncate+write keeps the inode, write+rename gives a new one, utimes restores mtime, ctime is the kernel's); the premise is measured on the real metadata at every backup point and must agree with the model",
         "the parentless backup of the same source state is taken with --force under another host name in the same repository (same chunker polynomial)",
         "relative target (cd base; restic backup src): metadata of directories above the target is not part of the tree",
         "at a few backup points the packs holding the parent's file data are removed and the index rebuilt before the incremental backup: the stored tree must still be loadable (as after a full backup)",
-        "model bounds: paths {a, b, d, d/x}, 17 edit operations, histories of 4-5 backups with 0-3 edits in between, TLC -simulate"])
+        "model bounds: paths {a, b, d, d/x}, 17 edit operations; all single-edit histories (backup, edit, incremental backup) per flag setting enumerated by TLC, plus TLC -simulate walks of 4-5 backups with 0-3 edits in between"])
